@@ -292,6 +292,61 @@ func ruleSubCid(c *eng.Ctx) {
 		}
 		c.Check(okDoc && okCid, rule, "handleSubscription:ToSelect(evt.DocID,evt.Cid)", cs.Call.Pos(), "selection evaluated at the event's document and commit",
 			"the subscription selection is not built from the received update event's DocID and Cid: subscribers see a state other than the commit that triggered the notification")
+		// the select built from the event reaches the planner unchanged: no field of it is assigned
+		// between ToSelect and RunSelection
+		var sel types.Object
+		ast.Inspect(fi.Decl.Body, func(x ast.Node) bool {
+			if as, ok := x.(*ast.AssignStmt); ok && len(as.Rhs) == 1 && ast.Unparen(as.Rhs[0]) == cs.Call && len(as.Lhs) == 1 {
+				sel = eng.ObjOf(info, as.Lhs[0])
+			}
+			return true
+		})
+		if sel != nil {
+			mutated := token.NoPos
+			what := ""
+			ast.Inspect(fi.Decl.Body, func(x ast.Node) bool {
+				as, ok := x.(*ast.AssignStmt)
+				if !ok {
+					return true
+				}
+				for _, l := range as.Lhs {
+					root := ast.Unparen(l)
+					depth := 0
+					for {
+						switch y := root.(type) {
+						case *ast.SelectorExpr:
+							root = ast.Unparen(y.X)
+							depth++
+							continue
+						case *ast.IndexExpr:
+							root = ast.Unparen(y.X)
+							depth++
+							continue
+						case *ast.StarExpr:
+							root = ast.Unparen(y.X)
+							depth++
+							continue
+						}
+						break
+					}
+					if depth > 0 && eng.ObjOf(info, root) == sel {
+						mutated, what = as.Pos(), eng.ExprStr(l)
+					}
+					if depth == 0 && eng.ObjOf(info, root) == sel && ast.Unparen(as.Rhs[0]) != cs.Call {
+						mutated, what = as.Pos(), eng.ExprStr(l)
+					}
+				}
+				return true
+			})
+			pos := cs.Call.Pos()
+			if mutated != token.NoPos {
+				pos = mutated
+			}
+			c.Check(mutated == token.NoPos, rule, "handleSubscription:select-unchanged-until-run", pos, "the select built from the event is run as built",
+				"the select built from the update event is modified ("+what+") before it is run: the subscription result is evaluated at another commit/document than the one that triggered it")
+		} else {
+			c.Unknown(rule, "handleSubscription:select-unchanged-until-run", cs.Call.Pos(), "the result of ToSelect is not bound to a local")
+		}
 		// evt originates from the subscription message
 		if evt != nil {
 			fromMsg := false
